@@ -20,7 +20,7 @@ EXPLANATION = (
 LEVEL = ('Path-insensitive-free structural proof (all paths of four small functions) of the "failure means UTC" '
          'clause and of the constants of name resolution; the environment matrix itself is runtime configuration.')
 LEVEL_NOTE = 'Trusts clang 14 AST and sa/; the $TZDIR/$TZ/$LOCALTIME/file: resolution behaviour is not decided.'
-TECHNIQUE = 'definite assignment + must-hold branch facts (dominance) + resolved string-constant agreement'
+TECHNIQUE = 'definite assignment + must-hold branch facts (dominance) + must-pass-through on the CFG + resolved string-constant agreement'
 
 
 def _subst_const_locals(u, F, key, depth=0):
